@@ -256,6 +256,11 @@ pub fn validate_case(files: &Files) -> Vec<(&'static str, Json)> {
     vec![("op", Json::s("validate")), ("files", files_json(files)), ("impl", impl_validate(files))]
 }
 
+/// what the syntax stage must have read from documents generated from `proj` (position-erased trees)
+pub fn expect_sx_of(proj: &[(String, doc::Doc)]) -> Json {
+    Json::Arr(proj.iter().map(|(id, d)| Json::obj(vec![("id", Json::s(id.clone())), ("sx", Json::s(doc::sx_doc(d)))])).collect())
+}
+
 pub fn validate_case_after(files: &Files, prev: &Files) -> Vec<(&'static str, Json)> {
     vec![
         ("op", Json::s("validate")),
@@ -347,7 +352,9 @@ pub fn run(suite: &str, thorough: bool, seed: u64, shard: usize, nshards: usize,
                         let files = render_project(&proj, style, &mut r);
                         let prev_proj = gen::gen_project(&mut r, &cfg);
                         let prev = render_project(&prev_proj, LayoutStyle::Plain, &mut r);
-                        em.case(s, validate_case_after(&files, &prev));
+                        let mut c = validate_case_after(&files, &prev);
+                        c.push(("expect_sx", expect_sx_of(&proj)));
+                        em.case(s, c);
                     } else {
                         let prev = render_project(&proj, LayoutStyle::Plain, &mut r);
                         let mut now = proj.clone();
@@ -368,11 +375,15 @@ pub fn run(suite: &str, thorough: bool, seed: u64, shard: usize, nshards: usize,
                             now.remove(k);
                         }
                         let files = render_project(&now, style, &mut r);
-                        em.case(s, validate_case_after(&files, &prev));
+                        let mut c = validate_case_after(&files, &prev);
+                        c.push(("expect_sx", expect_sx_of(&now)));
+                        em.case(s, c);
                     }
                 } else {
                     let files = render_project(&proj, style, &mut r);
-                    em.case(s, validate_case(&files));
+                    let mut c = validate_case(&files);
+                    c.push(("expect_sx", expect_sx_of(&proj)));
+                    em.case(s, c);
                 }
             }
         }
@@ -468,6 +479,7 @@ pub fn run(suite: &str, thorough: bool, seed: u64, shard: usize, nshards: usize,
                     }
                     let mut c = code;
                     let mut body = String::new();
+                    let mut expect: Vec<Json> = Vec::new();
                     for k in 0..nm {
                         let sel = c % per;
                         c /= per;
@@ -475,9 +487,13 @@ pub fn run(suite: &str, thorough: bool, seed: u64, shard: usize, nshards: usize,
                             body.push_str(&format!("    const int K{} = {};\n", k, k));
                         }
                         body.push_str(&format!("    void {}(){};\n", names[sel % 3], codes[sel / 3]));
+                        let ec = match sel / 3 { 0 => Json::Null, 1 | 3 => Json::n(1), _ => Json::n(2) };
+                        expect.push(Json::Arr(vec![Json::s(names[sel % 3]), ec]));
                     }
                     let main = format!("package m;\ninterface Main {{\n{}}}\n", body);
-                    em.case(idx as u64, validate_case(&vec![("main".to_owned(), main)]));
+                    let mut cse = validate_case(&vec![("main".to_owned(), main)]);
+                    cse.push(("expect_codes", Json::Arr(expect)));
+                    em.case(idx as u64, cse);
                 }
             }
             // random longer sequences with large and zero-padded codes
@@ -487,21 +503,35 @@ pub fn run(suite: &str, thorough: bool, seed: u64, shard: usize, nshards: usize,
                 let mut r = Rng::new(sd);
                 let len = r.range(4, 12);
                 let mut body = String::new();
+                let mut expect: Vec<Json> = Vec::new();
                 for _ in 0..len {
-                    let code = match r.below(7) {
-                        0 => " = 4294967295".to_owned(),
-                        1 => " = 4294967296".to_owned(), // does not fit u32: Error, counts as absent
-                        2 => format!(" = 000{}", r.below(3)),
-                        3 | 4 => format!(" = {}", r.below(4)),
-                        _ => String::new(),
+                    // (source text of the code, the value the tree must hold)
+                    let (code, ec): (String, Json) = match r.below(9) {
+                        0 => (" = 4294967295".to_owned(), Json::Num(4294967295)),
+                        1 => (" = 4294967296".to_owned(), Json::Null), // does not fit u32: Error, counts as absent
+                        2 => {
+                            let k = r.below(3);
+                            (format!(" = 000{}", k), Json::n(k))
+                        }
+                        3 | 4 => {
+                            let k = r.below(4);
+                            (format!(" = {}", k), Json::n(k))
+                        }
+                        5 => (" = 2147483648".to_owned(), Json::Num(2147483648)), // beyond i32, inside u32
+                        6 => (" = 3000000000".to_owned(), Json::Num(3000000000)),
+                        _ => (String::new(), Json::Null),
                     };
                     if r.chance(1, 5) {
                         body.push_str(&format!("    const int K{} = 1;\n", r.below(3)));
                     }
-                    body.push_str(&format!("    void {}(){};\n", *r.pick(&["a", "b", "c", "d", "e", "f"]), code));
+                    let nm = *r.pick(&["a", "b", "c", "d", "e", "f"]);
+                    body.push_str(&format!("    void {}(){};\n", nm, code));
+                    expect.push(Json::Arr(vec![Json::s(nm), ec]));
                 }
                 let main = format!("package m;\ninterface Main {{\n{}}}\n", body);
-                em.case(sd, validate_case(&vec![("main".to_owned(), main)]));
+                let mut cse = validate_case(&vec![("main".to_owned(), main)]);
+                cse.push(("expect_codes", Json::Arr(expect)));
+                em.case(sd, cse);
             }
         }
         // C08: exhaustive container shapes over the 17 leaf categories, in every syntactic position
@@ -571,7 +601,9 @@ pub fn run(suite: &str, thorough: bool, seed: u64, shard: usize, nshards: usize,
                     _ => LayoutStyle::Tight,
                 };
                 let files = render_project(&proj, style, &mut r);
-                em.case(s, walk_case(&files, suite == "walkpos"));
+                let mut c = walk_case(&files, suite == "walkpos");
+                c.push(("expect_sx", expect_sx_of(&proj)));
+                em.case(s, c);
             }
         }
         // C11: determinism over fresh seeds / insertion orders / threads
